@@ -529,6 +529,13 @@ def format_datetime(format: str, value: datetime.datetime) -> str:
     if utcoffset is None:
         raise ValueError(f"{value} is not timezone-aware")
 
+    # OFX writes UTC offsets as +h[.mm].  An offset that is not a whole number of
+    # minutes (e.g. local mean time, +5:53:28) can't be written; express such a
+    # value in UTC instead, so that what is written still denotes the same instant.
+    if utcoffset % datetime.timedelta(minutes=1):
+        value = value.astimezone(utils.UTC)
+        utcoffset = datetime.timedelta(0)
+
     # Round to nearest millisecond by adding 500 us and truncating.
     # N.B. the value being increased by half a millisecond is
     # carried forward to this function's return value, to ensure that
